@@ -16,6 +16,7 @@ import (
 	"google.golang.org/protobuf/testing/protocmp"
 
 	aftpb "github.com/openconfig/gribi/v1/proto/gribi_aft"
+	enums "github.com/openconfig/gribi/v1/proto/gribi_aft/enums"
 	wpb "github.com/openconfig/ygot/proto/ywrapper"
 )
 
@@ -41,20 +42,36 @@ func vfRandAfts(r *rand.Rand) *aftpb.Afts {
 		}
 		return &wpb.BytesValue{Value: []byte{byte(r.Intn(256)), 0, 0, 0, 0, 0, 0, 0}}
 	}
+	en := func() enums.OpenconfigAftTypesEncapsulationHeaderType {
+		switch r.Intn(12) {
+		case 0:
+			return enums.OpenconfigAftTypesEncapsulationHeaderType([]int32{-1, 9, 10, 99, 1<<31 - 1, -1 << 31}[r.Intn(6)])
+		case 1, 2, 3:
+			return enums.OpenconfigAftTypesEncapsulationHeaderType(r.Intn(9))
+		}
+		return 0
+	}
+	undefOnly := func() enums.OpenconfigAftTypesEncapsulationHeaderType {
+		// defined non-zero values of this field are outside the model
+		if v := en(); v < 0 || v > 8 {
+			return v
+		}
+		return 0
+	}
 	a := &aftpb.Afts{}
 	switch r.Intn(5) {
 	case 0:
 		p := []string{"1.1.1.1/32", "10.0.0.0/8", "", "1.1.1.1", "300.1.1.1/32", "1.1.1.1/33", "2001:db8::/32", "0.0.0.0/0", "01.1.1.1/32"}[r.Intn(9)]
 		e := &aftpb.Afts_Ipv4EntryKey{Prefix: p}
 		if r.Intn(5) != 0 {
-			e.Ipv4Entry = &aftpb.Afts_Ipv4Entry{NextHopGroup: u(), NextHopGroupNetworkInstance: s(), EntryMetadata: md()}
+			e.Ipv4Entry = &aftpb.Afts_Ipv4Entry{NextHopGroup: u(), NextHopGroupNetworkInstance: s(), EntryMetadata: md(), DecapsulateHeader: undefOnly()}
 		}
 		a.Ipv4Entry = append(a.Ipv4Entry, e)
 	case 1:
 		p := []string{"2001:db8::/32", "::/0", "", "1.1.1.1/32", "2001:db8::1", "2001:db8::/129", "2001:DB8::/64", "::ffff:1.2.3.4/128", "fe80::1%eth0/64"}[r.Intn(9)]
 		e := &aftpb.Afts_Ipv6EntryKey{Prefix: p}
 		if r.Intn(5) != 0 {
-			e.Ipv6Entry = &aftpb.Afts_Ipv6Entry{NextHopGroup: u(), NextHopGroupNetworkInstance: s(), EntryMetadata: md()}
+			e.Ipv6Entry = &aftpb.Afts_Ipv6Entry{NextHopGroup: u(), NextHopGroupNetworkInstance: s(), EntryMetadata: md(), DecapsulateHeader: undefOnly()}
 		}
 		a.Ipv6Entry = append(a.Ipv6Entry, e)
 	case 2:
@@ -81,7 +98,7 @@ func vfRandAfts(r *rand.Rand) *aftpb.Afts {
 	case 4:
 		e := &aftpb.Afts_NextHopKey{Index: uint64(r.Intn(4))}
 		if r.Intn(5) != 0 {
-			e.NextHop = &aftpb.Afts_NextHop{NetworkInstance: s()}
+			e.NextHop = &aftpb.Afts_NextHop{NetworkInstance: s(), EncapsulateHeader: en(), DecapsulateHeader: en()}
 			if r.Intn(3) == 0 {
 				e.NextHop.PopTopLabel = &wpb.BoolValue{Value: r.Intn(2) == 0}
 			}
@@ -127,8 +144,16 @@ func TestVfModelAgreement(t *testing.T) {
 			agree++
 			continue
 		}
-		real, rerr := candidateRIB(a)
-		model, merr := vfModelCandidateRIB(a)
+		real, rerr, rpanic := vfCatchCandidate(candidateRIB, a)
+		model, merr, mpanic := vfCatchCandidate(vfModelCandidateRIB, a)
+		if rpanic != mpanic {
+			t.Errorf("candidateRIB(%v): real panicked=%v, model panicked=%v", a, rpanic, mpanic)
+			continue
+		}
+		if rpanic {
+			agree++
+			continue
+		}
 		if (rerr != nil) != (merr != nil) {
 			t.Errorf("candidateRIB(%v): real err %v, model err %v", a, rerr, merr)
 			continue
@@ -143,8 +168,8 @@ func TestVfModelAgreement(t *testing.T) {
 		}
 		// merge into a RIB that may already hold the key (with other field values)
 		b := vfRandAfts(rand.New(rand.NewSource(r.Int63())))
-		base1, err1 := candidateRIB(b)
-		if err1 != nil {
+		base1, err1, p1 := vfCatchCandidate(candidateRIB, b)
+		if err1 != nil || p1 {
 			agree++
 			continue
 		}
@@ -202,6 +227,16 @@ func TestVfModelAgreement(t *testing.T) {
 		agree++
 	}
 	fmt.Printf("VFAGREE %d/%d\n", agree, n)
+}
+
+func vfCatchCandidate(f func(*aftpb.Afts) (*aft.RIB, error), a *aftpb.Afts) (r *aft.RIB, err error, panicked bool) {
+	defer func() {
+		if recover() != nil {
+			panicked = true
+		}
+	}()
+	r, err = f(a)
+	return
 }
 
 // TestVfModelCalibrate measures facts about the real conversion functions that the models
